@@ -27,8 +27,10 @@ Proof.
   - rewrite Hint. unfold ints_of. rewrite !map_length. exact Hplen.
 Qed.
 
-Lemma matrix_ok_bg K rows (bg : list Q) : matrix_ok K rows bg -> bg_unit (K - 1) bg /\ (K - 1 <= length bg)%nat.
-Proof. intros [HK [_ [Hbgl [_ [Hunit _]]]]]. split; [exact Hunit|lia]. Qed.
+Lemma matrix_ok_bg K rows (bg : list Q) : matrix_ok K rows bg -> bg_mass (K - 1) bg /\ (K - 1 <= length bg)%nat.
+Proof.
+  intros [HK [_ [Hbgl [_ [Hunit Hw]]]]]. split; [|lia]. unfold bg_mass. rewrite Hw. unfold bg_unit in Hunit. lra.
+Qed.
 
 (* PvaluesIterator::next: every refinement step brackets the exact tail *)
 Theorem pv_next_sound rows perm bg K g score it :
@@ -62,7 +64,7 @@ Proof.
     destruct Hok as [_ [_ [_ [_ [_ Hwild]]]]].
     rewrite combine_map_self, tl_map in Hem.
     apply error_max_from_Q in Hem; auto.
-    2:{ apply Forall_tl. rewrite Forall_forall in *. intros r Hr. split; [apply Hne; auto|apply Hwild; apply Hpin; auto]. }
+    2:{ apply Forall_tl. exact Hne. }
     destruct Hem as [Em0 _]. cbn [NumQ n_floorZ n_add n_sub n_div n_ofZ n_one].
     set (sc := score / g_gran G + inject_Z osum).
     assert (Qfloor (sc - g_emax G - 1) <= Qfloor (sc + g_emax G + 1))%Z by (apply Qfloor_resp_le; lra).
